@@ -2,7 +2,7 @@
    N/Z/positive/nat stay Coq datatypes; no Extract Constant). Run from the output dir. *)
 From Coq Require Import Extraction ExtrOcamlBasic.
 From KV Require Import Bytes WalCodec Memtable Engine.
-From KV Require Import SSTable.
+From KV Require Import SSTable Xxhash Block SSTFile.
 Extraction Language OCaml.
 Set Extraction Output Directory ".".
 Separate Extraction
@@ -16,4 +16,8 @@ Separate Extraction
   Engine.init Engine.put Engine.del Engine.apply_batch Engine.tx_commit Engine.get Engine.flush
   Engine.reopen Engine.run Engine.buffer_ops
   SSTable.write SSTable.cut SSTable.ti_new SSTable.ti_seek_first SSTable.ti_seek_last SSTable.ti_seek SSTable.ti_next
-  SSTable.ti_valid SSTable.ti_cur SSTable.t_get SSTable.wf_sentry SSTable.ascending.
+  SSTable.ti_valid SSTable.ti_cur SSTable.t_get SSTable.wf_sentry SSTable.ascending
+  Xxhash.xxh64 Block.encode_block Block.new_reader Block.it_new Block.it_seek_first Block.it_next
+  Block.it_seek Block.it_seek_prev Block.it_seek_last Block.it_valid Block.it_entry Block.block_scan
+  SSTFile.file_parts SSTFile.parts_bytes SSTFile.enc_footer SSTFile.read_file SSTFile.upd
+  SSTFile.bl_of_block SSTFile.bl_contains SSTFile.bl_bytes.
